@@ -268,6 +268,7 @@ func (d *dumper) typeID(t types.Type) string {
 	if t == nil {
 		return ""
 	}
+	t = types.Unalias(t)
 	if id, ok := d.typeIDs[t]; ok {
 		return id
 	}
